@@ -196,6 +196,18 @@ func resolveAddr(v ssa.Value) ssa.Value {
 		case *ssa.UnOp:
 			if addr, ok := core.IsLoad(x); ok {
 				switch a := addr.(type) {
+				case *ssa.FieldAddr:
+					// a field of a local struct that is written once: either the
+					// struct is a by-value parameter spilled to a cell (the
+					// field then denotes one pointer for the whole function; the
+					// first address taken of it stands for all of them), or the
+					// field is assigned exactly once
+					if w, canon := localFieldValue(a); w != nil {
+						v = w
+						continue
+					} else if canon != nil {
+						return canon
+					}
 				case *ssa.Alloc:
 					var stored []ssa.Value
 					for _, ref := range *a.Referrers() {
@@ -280,4 +292,69 @@ func isLocalLiteral(addr ssa.Value) bool {
 		}
 	}
 	return true
+}
+
+// localFieldValue: fa addresses field f of a local struct cell that does not
+// escape (it is only loaded, stored to as a whole, or has its fields
+// addressed, and those field addresses are only loaded from and stored to).
+// When field f is assigned exactly once and the cell is never assigned as a
+// whole, the assigned value is returned. When the cell is assigned as a whole
+// exactly once, from a parameter, and field f is never assigned, a canonical
+// stand-in for "the value of that field" is returned (the first address
+// taken of the field), so that two reads of it compare equal.
+func localFieldValue(fa *ssa.FieldAddr) (stored ssa.Value, canon ssa.Value) {
+	cell, ok := fa.X.(*ssa.Alloc)
+	if !ok {
+		return nil, nil
+	}
+	var whole []ssa.Value
+	var fieldStores []ssa.Value
+	var first *ssa.FieldAddr
+	for _, ref := range *cell.Referrers() {
+		switch x := ref.(type) {
+		case *ssa.Store:
+			if x.Addr != ssa.Value(cell) {
+				return nil, nil // the cell's address is stored somewhere
+			}
+			whole = append(whole, x.Val)
+		case *ssa.UnOp:
+			if x.Op != token.MUL {
+				return nil, nil
+			}
+		case *ssa.FieldAddr:
+			for _, r2 := range *x.Referrers() {
+				switch y := r2.(type) {
+				case *ssa.Store:
+					if y.Addr != ssa.Value(x) {
+						return nil, nil
+					}
+					if x.Field == fa.Field {
+						fieldStores = append(fieldStores, y.Val)
+					}
+				case *ssa.UnOp:
+					if y.Op != token.MUL {
+						return nil, nil
+					}
+				case *ssa.DebugRef:
+				default:
+					return nil, nil
+				}
+			}
+			if x.Field == fa.Field && first == nil {
+				first = x
+			}
+		case *ssa.DebugRef:
+		default:
+			return nil, nil
+		}
+	}
+	switch {
+	case len(whole) == 0 && len(fieldStores) == 1:
+		return fieldStores[0], nil
+	case len(whole) == 1 && len(fieldStores) == 0:
+		if _, isParam := whole[0].(*ssa.Parameter); isParam {
+			return nil, first
+		}
+	}
+	return nil, nil
 }
